@@ -194,6 +194,11 @@ func (x *Exec) instrWrites(ins ssa.Instruction, ws *WriteSet, visiting map[*ssa.
 	case *ssa.Send, *ssa.Select:
 		nk, ek := x.logKeys("send")
 		ws.keys[nk], ws.keys[ek] = true, true
+	case *ssa.UnOp:
+		if v.Op == token.ARROW {
+			nk, ek := x.logKeys("recv")
+			ws.keys[nk], ws.keys[ek] = true, true
+		}
 	case *ssa.Go:
 		// asynchronous: dropped (documented)
 	}
